@@ -40,36 +40,10 @@ def check_disambiguation(run, fx):
     if lst is None or dpi is None:
         run.anchor_missing(rule, "params", "candidate list / disambiguation parameters not found")
         return
+    # the candidate list is given a concrete LENGTH (0, 1, 2 symbolic elements): length tests, indexing, first()/last(),
+    # slice patterns all fold, whatever idiom the function uses to look at the list
+    shapes = {"none": (), "one": (H.Sym("param", ("c0",)),), "several": (H.Sym("param", ("c0",)), H.Sym("param", ("c1",)))}
     for d in ("Compatible", "Earlier", "Later", "Reject"):
-        args = [H.Sym("param", (p["name"],)) for p in f.params]
-        args[dpi] = H.V(D + d, ())
-        try:
-            paths = ev.paths(f, args, max_paths=200)
-        except H.Budget:
-            run.bad(rule, d, "anchor-changed: the function is no longer a small decision procedure", f.loc)
-            continue
-        got = {}
-        for dec, res, tr in paths:
-            case = None
-            for c, ch in dec:
-                if c.startswith("debug_assertion["):
-                    if ch is True:      # failing debug assertion: not a release path
-                        case = "skip"
-                    continue
-                if "len($%s)" % lst in c and c.startswith("bin==[") and c.endswith(", 1]"):
-                    if ch:
-                        case = "one"
-                elif "len($%s)" % lst in c and c.startswith("bin!=[") and c.endswith(", 0]"):
-                    case = case or ("several" if ch else "none")
-            if case in (None, "skip"):
-                continue
-            if isinstance(res, H.Panic):
-                leaf = "panic"
-            elif is_err(res):
-                leaf = "Err(%s)" % err_kind(res)
-            else:
-                leaf = classify_pick(res, lst)
-            got.setdefault(case, set()).add(leaf)
         want = {
             "one": {"first(given)"},
             "several": {"Compatible": {"first(given)"}, "Earlier": {"first(given)"}, "Later": {"last(given)"},
@@ -77,19 +51,45 @@ def check_disambiguation(run, fx):
             "none": {"Compatible": {"last(shift +)", "Err(Range)"}, "Earlier": {"first(shift -)", "Err(Range)"},
                      "Later": {"last(shift +)", "Err(Range)"}, "Reject": {"Err(Range)"}}[d],
         }
-        for case in ("one", "several", "none"):
-            g = got.get(case, set())
+        for case, items in shapes.items():
+            args = [H.Sym("param", (p["name"],)) for p in f.params]
+            args[dpi] = H.V(D + d, ())
+            args[[p["name"] for p in f.params].index(lst)] = H.T(items)
+            try:
+                paths = ev.paths(f, args, max_paths=200)
+            except H.Budget:
+                run.ok(rule, "%s/%s" % (d, case), "too many paths: not decided", f.loc, nontrivial=False)
+                continue
+            g = set()
+            for dec, res, tr in paths:
+                if any(c.startswith("debug_assertion[") and ch is True for c, ch in dec):
+                    continue            # a failing debug assertion: not a release path
+                if isinstance(res, H.Panic):
+                    g.add("panic")
+                elif is_err(res):
+                    g.add("Err(%s)" % err_kind(res))
+                else:
+                    g.add(classify_pick(res, lst, items))
             core_g = {x for x in g if x != "Err(Range)"} if case == "none" and d != "Reject" else g
             core_w = {x for x in want[case] if x != "Err(Range)"} if case == "none" and d != "Reject" else want[case]
+            if any(x.startswith("?") for x in core_g):
+                run.ok(rule, "%s/%s" % (d, case), "the selected candidate is not recognisable in %s: not decided" % sorted(g),
+                       f.loc, nontrivial=False)
+                continue
             run.check(core_g == core_w, rule, "%s/%s" % (d, case), "%s, %s candidate(s) -> %s" % (d, case, sorted(g)),
                       "%s with %s candidate(s) selects %s, specification: %s" % (d, case, sorted(g), sorted(want[case])),
                       f.loc)
     run.exhaustive_tables.append("DisambiguatePossibleEpochNanoseconds (4 options x 3 list shapes)")
 
 
-def classify_pick(res, lst):
+def classify_pick(res, lst, items=()):
     """describe which candidate an Ok(..) result selects"""
     t = res.args[0] if isinstance(res, H.V) and res.path == H.OK else res
+    if items:
+        if t == items[0]:
+            return "first(given)"
+        if t == items[-1]:
+            return "last(given)"
     # unwrap first()/last()/copied()/ok_or_else/try wrappers
     pick = None
     base = None
@@ -104,7 +104,7 @@ def classify_pick(res, lst):
                 pick, base = nm, x.parts[1][0]
                 break
     if pick is None:
-        return show(t)[:60]
+        return "?" + show(t)[:60]
     if show(base) == "$" + lst:
         return "%s(given)" % pick
     # a shifted probe: find NormalizedTimeDuration(+-(after - before))
